@@ -236,6 +236,13 @@ package server
 //@   at-call ^peer.updateRoutes(withdrawn...) requires path.IsWithdraw
 //@   at-call ^sendfsmOutgoingMsg(peer, withdrawn) requires called(updateRoutes)
 
+// from C17 "every ... import-RT ... change triggers exactly the advertisements and withdrawals needed": a route that
+// can no longer be imported into the neighbour's VRF replaces one that could (and was advertised): the neighbour is
+// sent the withdrawal, the function does not just drop the change (vrf is in scope at the returns of the VRF block)
+//@ func (*BgpServer).prePolicyFilterpath
+//@   claims at-return
+//@   at-return requires ok && old != nil && table.CanImportToVrf(vrf, old) ==> ret0 != nil
+
 // =============================================================================================
 // C12 - graceful restart: the per-call parts (DESIGN.md 4 C12; every "exactly when <timer/event order>" clause
 // of the statement is a property of histories and not decided here)
